@@ -159,7 +159,7 @@ def k_downsample(run, case):
     stamped = bool(rng.random() < .7) or has_duplicate_poses(arr)
     tr, exp, mode = build(arr, rng, stamped)
     n = len(arr["p"])
-    out = contracts.outcome_of(tr.downsample, N)
+    out = contracts.outcome_of(tr.downsample, gen.spell_int(rng, N))
     run.seen(case, core.digest(arr["p"], arr["t"], "ds", N, stamped), nontrivial=N < n,
              cls=["downsample", "N<1" if N < 1 else "N>=count" if N >= n else "1<=N<count"],
              sample={"n": n, "N": N, "outcome": out[0]})
@@ -355,6 +355,11 @@ def k_split(run, case):
         which = "distance"
     stamped = which != "distance_path"
     tr, exp, mode = build(arr, rng, stamped)
+    column = False
+    if which == "time" and rng.random() < .2:
+        # timestamps handed over as an n x 1 column (a column slice of a data matrix / DataFrame)
+        tr.timestamps = np.array(tr.timestamps).reshape(-1, 1)
+        column = True
     n = len(arr["p"])
     exact = exact and arr.get("exact", False)
     seg = np.linalg.norm(np.diff(arr["p"], axis=0), axis=1) if n > 1 else np.zeros(0)
@@ -379,8 +384,9 @@ def k_split(run, case):
     fn = {"time": "split_time_gaps", "distance": "split_distance_gaps",
           "distance_path": "split_distance_gaps", "speed": "split_speed_outliers"}[which]
     out = contracts.outcome_of(getattr(tr, fn), thr)
-    run.seen(case, core.digest(arr["p"], arr["t"], which, thr), cls=["split:" + which,
-                                                                    "exact grid" if exact else "random"],
+    run.seen(case, core.digest(arr["p"], arr["t"], which, thr, column), cls=["split:" + which,
+                                                                            "exact grid" if exact else "random"] +
+             (["split: stamps as n x 1 column"] if column else []),
              sample={"n": n, "which": which, "threshold": thr, "outcome": out[0]})
     if not run.check(out[0] == "ok", "split returns", case, "%s raised %r" % (fn, out[1])):
         return
@@ -391,7 +397,7 @@ def k_split(run, case):
     same = cat_p.shape == exp["p"].shape and core.bits_equal(cat_p, exp["p"]) and \
         core.bits_equal(cat_T, exp["T"])
     if stamped:
-        cat_t = np.concatenate([v["t"] for v in vs])
+        cat_t = np.concatenate([v["t"].reshape(-1) for v in vs])
         same = same and core.bits_equal(cat_t, exp["t"])
     run.check(same and all(len(v["p"]) > 0 for v in vs), "split: parts concatenate to the input", case,
               "%s: concatenating the %d parts does not reproduce the trajectory bit for bit" %
